@@ -287,3 +287,9 @@ def run(ctx, led):
 def _u5b(led, rid, ctx):
     from .C02 import u5b
     u5b(led, rid, ctx)
+    from . import C12 as _C12, predrules
+    run_rule(led, "S8", "affine views translate bounds and predicates with the right inner operation and rounding (shared with C12-V1)", _C12.v1, ctx)
+    run_rule(led, "S9", "map / invert arithmetic of views (shared with C12-V1a)", _C12.v1_arith, ctx)
+    run_rule(led, "S10", "contains / remove / equality / disequality on a view are guarded by the divisibility test (shared with C12-V1d)", _C12.v1_divis, ctx)
+    run_rule(led, "S11", "Assignments::evaluate_predicate is exact (shared with C02-U10)", predrules.evaluate_exact, ctx)
+    run_rule(led, "S12", "Predicate negation is the exact complement (shared with C02-U9)", predrules.negation_exact, ctx)
